@@ -758,7 +758,8 @@ fn decompress_udp(
         &iphc_repr.dst_addr,
         &ChecksumCapabilities::ignored(),
     )?;
-    if udp_repr.header_len() + payload.len() > buffer.len() {
+    // The decompressed UDP header is written in full, whatever the size of the compressed one.
+    if udp_repr.0.header_len() + payload.len() > buffer.len() {
         return Err(Error);
     }
     let udp_payload_len = if let Some(total_len) = total_len {
